@@ -69,10 +69,15 @@ func parseHTTPDateCompat(dateStr string) (t time.Time, err error) {
 
 func (r *Response) ExpiresHeader() (t time.Time, found bool, valid bool) {
 	expiresStr := r.Data.Header.Get("Expires")
+	if len(r.Data.Header.Values("Expires")) == 0 {
+		return
+	}
+	// A field that is present with an empty value is an invalid date, which
+	// means "already expired" (RFC 9111 §5.3) - not an absent field.
+	found = true
 	if expiresStr == "" {
 		return
 	}
-	found = true
 	if t, valid = RawTime(expiresStr).Value(); valid {
 		return
 	}
